@@ -52,6 +52,7 @@ static struct {
 } cfg = { "select", 0, 0, 0, 1 };
 
 static struct MHD_Daemon *d;
+static volatile int stopping;     /* the application stops suspending once the script asks for the shutdown */
 
 #define MAXC 8
 #define MAXR 4
@@ -183,6 +184,13 @@ static int do_suspend (struct MHD_Connection *mc, int c, int r, const char *wher
 {
   const union MHD_ConnectionInfo *ci;
   int eff;
+  if (conns[c].is_susp)
+  { /* only reachable when the library invoked a callback of a suspended connection: suspending twice
+       would corrupt the daemon's lists, so the harness only reports it */
+    out ("double-suspend c=%d r=%d at=%s (callback invoked while suspended)", c, r, where);
+    return 0;
+  }
+  if (stopping) return 0;
   if ('t' == a.kind) want_resume[c] = 1;    /* race: the other thread may win */
   LOCK ();
   if ('p' == a.kind) { printf ("resume c=%d pre\n", c); MHD_resume_connection (mc); }
@@ -411,7 +419,15 @@ static void report (void)
 
 static void one_round (void)
 {
-  int c;
+  int c, spin;
+  /* the second thread resumes "right after the suspend call": at the latest before the next round */
+  for (spin = 0; spin < 2000000; spin++)
+  {
+    int any = 0;
+    for (c = 0; c < MAXC; c++) any |= want_resume[c];
+    if (!any) break;
+    sched_yield ();
+  }
   for (c = 0; c < MAXC; c++)
     if (conns[c].used && conns[c].resume_in >= 0 && conns[c].mc)
     {
@@ -435,13 +451,20 @@ static void one_round (void)
 static int kv (const char *w, const char *key, const char **val)
 { size_t n = strlen (key); if (!strncmp (w, key, n) && w[n] == '=') { *val = w + n + 1; return 1; } return 0; }
 
+static void on_panic (void *cls, const char *file, unsigned int line, const char *reason)
+{
+  (void) cls; (void) file; (void) line;
+  printf ("panic %s\n", reason ? reason : "?");
+  fflush (stdout);
+  abort ();
+}
+
 static void start_daemon (void)
 {
   unsigned flags = MHD_USE_NO_LISTEN_SOCKET | MHD_USE_SUPPRESS_DATE_NO_CLOCK;
   struct MHD_OptionItem ops[16]; int n = 0;
   if (cfg.suspend) flags |= MHD_ALLOW_SUSPEND_RESUME;
   if (!strcmp (cfg.mode, "epoll")) flags |= MHD_USE_EPOLL;
-  else if (!strcmp (cfg.mode, "poll")) flags |= MHD_USE_POLL;
   else if (!strcmp (cfg.mode, "poll-thr")) flags |= MHD_USE_POLL | MHD_USE_INTERNAL_POLLING_THREAD | MHD_USE_ITC;
   else if (!strcmp (cfg.mode, "select-thr")) flags |= MHD_USE_INTERNAL_POLLING_THREAD | MHD_USE_ITC;
   else if (!strcmp (cfg.mode, "epoll-thr")) flags |= MHD_USE_EPOLL | MHD_USE_INTERNAL_POLLING_THREAD | MHD_USE_ITC;
@@ -452,18 +475,25 @@ static void start_daemon (void)
   ops[n].option = MHD_OPTION_NOTIFY_CONNECTION; ops[n].value = (intptr_t) &notify_conn; ops[n++].ptr_value = NULL;
   ops[n].option = MHD_OPTION_END; ops[n].value = 0; ops[n++].ptr_value = NULL;
   d = MHD_start_daemon (flags, 0, NULL, NULL, &handler, NULL, MHD_OPTION_ARRAY, ops, MHD_OPTION_END);
+  MHD_set_panic_func (&on_panic, NULL);   /* the library's lazy initialisation resets it */
   out (d ? "started" : "start-failed");
   if (d && !resumer_run) { resumer_run = 1; pthread_create (&resumer, NULL, &resumer_main, NULL); }
 }
 
 static void resume_all_for_stop (void)
 {
-  int i, any = 0;
-  for (i = 0; i < MAXC; i++)
-    if (conns[i].used && conns[i].mc && (conns[i].is_susp || conns[i].resume_in >= 0))
-    { conns[i].resume_in = -1; LOCK (); printf ("resume c=%d stop\n", i); conns[i].is_susp = 0; MHD_resume_connection (conns[i].mc); UNLOCK (); any = 1; }
-  if (any && !threaded ()) { one_round (); one_round (); }
-  else if (any) usleep (50000);
+  int i, any, iter;
+  stopping = 1;
+  for (iter = 0; iter < 8; iter++)
+  {
+    any = 0;
+    for (i = 0; i < MAXC; i++)
+      if (conns[i].used && conns[i].mc && (conns[i].is_susp || conns[i].resume_in >= 0))
+      { conns[i].resume_in = -1; LOCK (); printf ("resume c=%d stop\n", i); conns[i].is_susp = 0; MHD_resume_connection (conns[i].mc); UNLOCK (); any = 1; }
+    if (!any && iter > 0) break;
+    if (!threaded ()) { one_round (); one_round (); }
+    else usleep (30000);
+  }
 }
 
 static void stop_daemon (void)
@@ -484,6 +514,7 @@ static void reset_all (void)
   memset (resps, 0, sizeof(resps));
   memset (&cfg, 0, sizeof(cfg)); strcpy (cfg.mode, "select"); cfg.suspend = 1;
   for (c = 0; c < MAXC; c++) want_resume[c] = 0;
+  stopping = 0;
   vclock_ms = 1000000;
 }
 
@@ -516,7 +547,7 @@ int main (void)
   signal (SIGPIPE, SIG_IGN);
   setvbuf (stdout, NULL, _IOFBF, 1 << 16);
   pthread_mutexattr_init (&at); pthread_mutexattr_settype (&at, PTHREAD_MUTEX_RECURSIVE); pthread_mutex_init (&log_mx, &at);
-  MHD_set_panic_func (NULL, NULL);
+  MHD_set_panic_func (&on_panic, NULL);
   reset_all ();
   while (lp_read (stdin, &l))
   {
